@@ -12,10 +12,17 @@ SPEC_DIR = os.path.join(os.path.dirname(os.path.dirname(os.path.dirname(os.path.
 
 
 def prelude(*names):
+    """concatenation of the spec files; a file may carry a line `; DEFINES: f g`: the uninterpreted declarations
+    `(declare-fun f ...)` of earlier files are dropped then (the file gives the definitions)"""
     out = ['(set-logic ALL)']
     for n in names:
         with open(os.path.join(SPEC_DIR, n)) as f:
-            out.append(f.read())
+            text = f.read()
+        for line in text.split('\n'):
+            if line.startswith('; DEFINES:'):
+                for fn in line[len('; DEFINES:'):].split():
+                    out = ['\n'.join(l for l in o.split('\n') if not l.startswith('(declare-fun %s ' % fn)) for o in out]
+        out.append(text)
     return '\n'.join(out)
 
 
